@@ -13,7 +13,7 @@ import (
 func init() {
 	register(Property{
 		ID: "C16",
-		Explanation: "Decided statically on constants and literals (the sample generators never run in the test-suite): T1 every placeholder of every constant template of the runtimedoc generator is bound and every Sprintf format uses only %v/%T/%% with enough operands (an unbound placeholder is a guaranteed panic the first time that arm runs); T2 every template, with its placeholders replaced by a stub of the kind its binding constructs, parses as Go in one of four syntactic contexts, and the constant helper block parses as declarations; T3 doc text reaches the generated code only as a quoted value literal (Value/%v) or behind Comment, never through ID (a reference parser), Block or a format position; R1 the 'cases' loop emits a case exactly for exported, non-embedded fields (skipping anonymous/empty structs) and the 'embeds' loop a delegation exactly for embedded fields, choosing v.F / &v.F by pointer-ness, both over the same NumFields() range; R2 the helper is emitted under an instance flag that is tested and set before rendering, and only from a Defer callback registered when something was rendered; R3 Context.Doc removes the leading type name from the first doc line and drops the line when it becomes empty; U1 field-type assertions look through aliases. R4 no schedule-dependent order source in the generator. NOT decided: that the generated code compiles with the package and that RuntimeDoc returns the expected lines at run time (needs compilation and execution of generated code).",
+		Explanation: "Decided statically on constants and literals (the sample generators never run in the test-suite): T1 every placeholder of every constant template of the runtimedoc generator is bound and every Sprintf format uses only %v/%T/%% with enough operands (an unbound placeholder is a guaranteed panic the first time that arm runs); T2 every template, with its placeholders replaced by a stub of the kind its binding constructs, parses as Go in one of four syntactic contexts, and the constant helper block parses as declarations; T3 doc text reaches the generated code only as a quoted value literal (Value/%v) or behind Comment, never through ID (a reference parser), Block or a format position; R1 the 'cases' loop emits a case exactly for exported, non-embedded fields (skipping anonymous/empty structs) and the 'embeds' loop a delegation exactly for embedded fields, choosing v.F / &v.F by pointer-ness, both over the same NumFields() range; R2 the helper is emitted under an instance flag that is tested and set before rendering, and only from a Defer callback registered when something was rendered; R3 Context.Doc removes the leading type name from the first doc line and drops the line when it becomes empty; U1 field-type assertions look through aliases. R4 no schedule-dependent order source in the generator. R5 the attribution rules of the comment indexes (C12.R1-R3) hold, since RuntimeDoc returns what Package.Doc attributes to the declaration. NOT decided: that the generated code compiles with the package and that RuntimeDoc returns the expected lines at run time (needs compilation and execution of generated code).",
 		Assumptions: commonAssumptions,
 		Run:         runC16,
 	})
@@ -35,6 +35,26 @@ func runC16(p *core.Program, r *core.Report) {
 		if o.Status == core.Violated || o.Status == core.Undecided {
 			r.Bad("R3", nil, o.Func+": "+o.Construct, token.NoPos, o.How)
 		}
+	}
+	// R5: the lines RuntimeDoc returns are the ones Package.Doc attributes to the declaration:
+	// the attribution rules of the comment indexes (C12.R1-R3) are part of this property's chain
+	r.Floor("R5", 1)
+	sub12 := core.NewReport(r.Prog, "C12")
+	if np := p.FuncByName("pkg/types", "newPkg"); np != nil {
+		c12R1R3(p, sub12, np)
+		c12R2(p, sub12)
+	} else {
+		r.Anchor("R5", "pkg/types.newPkg")
+	}
+	nbad := 0
+	for _, o := range sub12.Obls {
+		if o.Status == core.Violated || o.Status == core.Undecided {
+			nbad++
+			r.Bad("R5", nil, "comment attribution ("+o.Rule+") "+o.Func+": "+o.Construct, token.NoPos, o.How)
+		}
+	}
+	if nbad == 0 {
+		r.OK("R5", nil, "doc lines are attributed to the right declaration (C12.R1-R3 hold)", token.NoPos, itoa(int64(len(sub12.Obls)))+" obligations of the comment indexes discharged")
 	}
 	r.Floor("U1", 3)
 	a10Report(p, r, "U1", "devpkg/runtimedocgen")
